@@ -3,7 +3,7 @@ C03 — property theorems (and non-vacuity examples). Nothing else lives here; l
 
 Period limit   : period_refines_spec, period_exact_quota, period_grants_exactly_quota, period_life_ends,
                  store_error_never_grants, reply_code_table
-Token limit    : ttl_covers_burst, token_refines_bucket, token_rate_bound
+Token limit    : ttl_covers_burst, token_refines_bucket, token_rate_bound, joint_meter_sound
 Rescue limiter : rescue_local_bound, rescue_rate_exact
 Defects (witnesses about the faithful model of the pinned code):
                  pinned_ttl_zero_script_fails, pinned_never_uses_store, pinned_ttl_zero_overgrants,
@@ -153,6 +153,18 @@ theorem token_rate_bound (c : TCfg) (hr : 0 < c.rate) (hk : c.k1 ≠ c.k2) (ops 
       ≤ c.burst + c.rate * (((e1 :: mid).getLast (by simp)).ns / nsPerSec - e1.ns / nsPerSec) := by
   obtain ⟨h1, h2⟩ := sys_refines_bucket c hr hk ops (Sys.init c) (Bucket.init c.burst) [] (tinv_init c) ht
   exact interval_of_refinement c.rate c.burst (Bucket.init c.burst) _ pre post mid e1 h1 h2 hsplit
+
+/-- **The driver's joint meter is sound**: on any monotone history decided by the abstract bucket (hence, by
+`token_refines_bucket`, on the store-decided requests of any well-timed run) the leaky-bucket meter with which
+the driver evaluates "granted ≤ burst + rate × elapsed over every interval" never exceeds `burst`. -/
+theorem joint_meter_sound (rate burst : Nat) (calls : List (Nat × Nat)) (hm : Mono 0 calls) :
+    ∀ lv ∈ meterLevels rate Meter.init (calls.zip (Bucket.run rate burst (Bucket.init burst) calls)), lv ≤ burst :=
+  meter_sound_from rate burst calls (Bucket.init burst) Meter.init hm (Nat.le_refl _)
+    (by simp [Meter.init, Bucket.init])
+
+example : meterLevels 5 Meter.init
+    ([(10, 7), (10, 4), (11, 8), (15, 10)].zip (Bucket.run 5 10 (Bucket.init 10) [(10, 7), (10, 4), (11, 8), (15, 10)]))
+    = [7, 10, 10] := by decide
 
 /-- a concrete well-timed history: two instances, an outage in the middle, key expiry at the end -/
 def exCfg : TCfg := ⟨5, 10, "{k}.tokens", "{k}.ts"⟩
